@@ -44,8 +44,14 @@ class PreprocessorHexagon:
             with open(mp) as f:
                 in_qemu_gen = False
                 in_user_only = False
+                in_comment = False
                 for line in f.readlines():
                     if line == "\n":
+                        continue
+                    if in_comment:
+                        # Lines of a block comment. Only those may start with a "*".
+                        if "*/" in line:
+                            in_comment = False
                         continue
                     if re.match(r"#ifdef QEMU_GENERATE", line):
                         in_qemu_gen = True
@@ -68,7 +74,9 @@ class PreprocessorHexagon:
                         continue
                     elif in_qemu_gen or in_user_only:
                         continue
-                    if re.match(r"(\s*//)|(/\*)|(\s*\*)", line):  # Ignore comments
+                    if re.match(r"(\s*//)|(/\*)", line):  # Ignore comments
+                        if re.match(r"/\*", line) and "*/" not in line:
+                            in_comment = True
                         continue
                     res.append(line.strip("\n"))
         # Join lines with an \ at the end
